@@ -67,3 +67,113 @@ func VerifDump(item any) any {
 	}
 	return map[string]any{"k": "?"}
 }
+
+/* ---------- fields for the presentation model ---------- */
+
+func verifFld(v any, err error) any {
+	if err == nil {
+		return map[string]any{"ok": v}
+	}
+	if errorsIs(err, objectErrKeyNotPresent()) {
+		return map[string]any{"absent": err.Error()}
+	}
+	return map[string]any{"err": err.Error()}
+}
+
+func verifLink(l *Link) any {
+	var uri any
+	if l.uriErr == nil {
+		uri = verifFld(l.uri.String(), nil)
+	} else {
+		uri = verifFld(nil, l.uriErr)
+	}
+	return map[string]any{"alt": verifFld(l.alt, l.altErr), "uri": uri}
+}
+
+/* returns the fields and the Markup values (the caller dumps their trees) */
+func VerifPostFields(p *Post) (map[string]any, any) {
+	names := func(ts []Tangible) []any {
+		out := []any{}
+		for _, t := range ts {
+			out = append(out, t.Name())
+		}
+		return out
+	}
+	var atts any
+	if p.attachmentsErr == nil {
+		l := []any{}
+		for _, a := range p.attachments {
+			l = append(l, verifLink(a))
+		}
+		atts = map[string]any{"ok": l}
+	} else {
+		atts = verifFld(nil, p.attachmentsErr)
+	}
+	var comments any
+	if errorsIs(p.commentsErr, objectErrKeyNotPresent()) {
+		comments = "disabled"
+	} else if p.commentsErr != nil {
+		comments = "enablederr"
+	} else {
+		n, err := p.comments.Size()
+		comments = map[string]any{"size": verifFld(verifItoa(n), err)}
+	}
+	var created any
+	if p.createdErr == nil {
+		created = verifFld(ago(p.created), nil)
+	} else {
+		created = verifFld(nil, p.createdErr)
+	}
+	fields := map[string]any{
+		"kind": p.kind, "title": verifFld(p.title, p.titleErr), "bodyLinks": verifStrs(p.bodyLinks),
+		"isReply":  !errorsIs(p.parentErr, objectErrKeyNotPresent()),
+		"creators": names(p.creators), "recipients": names(p.recipients),
+		"created": created, "agoZero": ago(p.created), "attachments": atts, "comments": comments,
+		"bodyErr": verifFld(nil, p.bodyErr),
+	}
+	if p.bodyErr == nil {
+		return fields, p.body
+	}
+	return fields, nil
+}
+
+func VerifActorFields(a *Actor) (map[string]any, any) {
+	var host any
+	if a.id != nil {
+		host = a.id.Host
+	}
+	var joined any
+	if a.joinedErr == nil {
+		joined = verifFld(a.joined.Format("2 Jan 2006"), nil)
+	} else {
+		joined = verifFld(nil, a.joinedErr)
+	}
+	var posts any
+	if a.postsErr != nil {
+		posts = verifFld(nil, a.postsErr)
+	} else {
+		n, err := a.posts.Size()
+		posts = map[string]any{"ok": verifFld(verifItoa(n), err)}
+	}
+	fields := map[string]any{
+		"kind": a.kind, "name": verifFld(a.name, a.nameErr), "handle": verifFld(a.handle, a.handleErr), "host": host,
+		"joined": joined, "posts": posts, "bodyErr": verifFld(nil, a.bioErr),
+	}
+	if a.bioErr == nil {
+		return fields, a.bio
+	}
+	return fields, nil
+}
+
+/* kind, actor name as the header shows it, target */
+func VerifActivityParts(a *Activity) (string, string, Tangible) {
+	name := ""
+	if a.actorErr != nil {
+		name = styleProblem(a.actorErr)
+	} else {
+		name = a.actor.Name()
+	}
+	return a.kind, name, a.target
+}
+
+func VerifFailureMessage(f *Failure) string { return f.message.Error() }
